@@ -549,8 +549,6 @@ def rule_patterns(ctx, R, F):
             R.check(sorted((x[1], x[2], st_lane.get(x[3])) for x in stores) == [('P2', j, j) for j in range(4)], 'hashAes1Rx4<%s> output' % soft, where, expected='hash block J = state J', found=sorted((x[1], x[2], st_lane.get(x[3])) for x in stores), rule='SPEC-AESPATTERN')
             for r in rs + prs:
                 R.check(r[5] == sv, 'hashAes1Rx4<%s> AES flavour' % soft, where, expected=soft, found=r[5], rule='AES-SWITCH')
-            endp = [x for x in A.seq if x[0] == 'ptrinit' and x[2] == 'inputEnd']
-            R.check(bool(endp) and endp[0][4] == 'inputSize', 'hashAes1Rx4<%s> reads exactly inputSize bytes' % soft, where, expected='inputEnd = inptr + inputSize', found=endp, rule='SPEC-AESPATTERN')
         else:
             R.violation('hashAes1Rx4<%s> structure' % soft, where, expected='one loop', found=len(loops), rule='SPEC-AESPATTERN')
 
@@ -924,3 +922,110 @@ def _first_diff(got, want, base):
     if len(got) != len(want):
         return ' (expected %d)' % len(want)
     return ''
+
+
+def rule_width(ctx, R, F):
+    """AES-WIDTH: the size argument is size_t; nothing derived from it may lose bits on its way to the loop bound, and no counter narrower than the bound may be compared with it."""
+    import domains
+    from domains import KB, KBEval, type_info
+    R.rule('AES-WIDTH', 'in the four AES functions no value derived from the size parameter is converted to an integer type too narrow for it (decided in the known-bits domain with the size unknown over all 64 bits: '
+           'the bits dropped by the conversion must be provably zero), and no loop compares a counter narrower than 64 bits with a bound derived from the size that may exceed the counter\'s range; '
+           'so the blocks touched are those of the whole size for every size_t value, not of the size modulo 2^32', min_instances=8)
+    plan = [('hashAes1Rx4', 1), ('fillAes1Rx4', 1), ('fillAes4Rx4', 1), ('hashAndFillAes1Rx4', 1)]
+    for fname, sizep in plan:
+        for soft in ('true', 'false'):
+            f = F.func('%s<%s>' % (fname, soft))
+            where = '%s:%d' % (f['file'], f['line'])
+            R.saw(fn=f['q'])
+            sp = f['params'][sizep]
+            ti = type_info(sp.get('ty'))
+            if ti is None or ti[0] != 64:
+                R.violation('%s<%s> size parameter' % (fname, soft), where, expected='64-bit size_t', found=sp.get('ty'))
+                continue
+            # taint: locals whose value depends on the size
+            taint = {sp['id']}
+            writes = {}
+            for x in walk(f['body']):
+                if x['k'] == 'Decl':
+                    for d in x['d']:
+                        if d.get('init') is not None:
+                            writes.setdefault(d['id'], []).append(d['init'])
+                elif x['k'] in ('Assign', 'CAssign'):
+                    l = strip_all(x['l'])
+                    if l['k'] == 'Ref' and l.get('id') is not None:
+                        writes.setdefault(l['id'], []).append(x['r'] if x['k'] == 'Assign' else x)
+                elif x['k'] == 'Un' and ('++' in x.get('op', '') or '--' in x.get('op', '')):
+                    l = strip_all(x['e'])
+                    if l['k'] == 'Ref' and l.get('id') is not None:
+                        writes.setdefault(l['id'], []).append(None)
+            changed = True
+            while changed:
+                changed = False
+                for vid, ws in writes.items():
+                    if vid not in taint and any(w is not None and any(y['k'] == 'Ref' and y.get('id') in taint for y in walk(w)) for w in ws):
+                        taint.add(vid)
+                        changed = True
+            # known bits of single-assignment integer locals, the size itself being unknown
+            env = {sp['id']: KB.top(64)}
+            for x in walk(f['body']):
+                if x['k'] == 'Decl':
+                    for d in x['d']:
+                        ws = writes.get(d['id'], [])
+                        dt = type_info(d.get('ty'))
+                        if dt is None:
+                            continue
+                        if len(ws) == 1 and ws[0] is not None and d.get('init') is not None:
+                            try:
+                                env[d['id']] = KBEval(F, env).ev(d['init']).resize(dt[0], dt[1])
+                                continue
+                            except (AnalysisBroken, KeyError, AttributeError):
+                                pass
+                        env[d['id']] = KB.top(dt[0])
+
+            def tainted(n):
+                return any(y['k'] == 'Ref' and y.get('id') in taint for y in walk(n))
+
+            def kb_of(n):
+                try:
+                    return KBEval(F, env).ev(n)
+                except (AnalysisBroken, KeyError, AttributeError):
+                    t_ = type_info(n.get('ty'))
+                    return KB.top(t_[0]) if t_ else None
+            nconv = 0
+            for x in walk(f['body']):
+                if x['k'] == 'Cast' and x.get('ck') == 'IntegralCast':
+                    tw, fw = type_info(x.get('ty')), type_info(x.get('from'))
+                    if tw is None or fw is None or tw[0] >= fw[0] or not tainted(x['e']):
+                        continue
+                    nconv += 1
+                    sub = kb_of(x['e'])
+                    lost = ((1 << fw[0]) - 1) & ~((1 << tw[0]) - 1)
+                    ok = sub is not None and (sub.zeros & lost) == lost
+                    R.check(ok, '%s<%s>: %s converted to %s' % (fname, soft, show(x['e'])[:50], x.get('ty')), loc(x, f), expected='bits %d..%d of the operand are provably zero' % (tw[0], fw[0] - 1),
+                            found='no bits lost' if ok else 'a size of 2^%d + 64 bytes is treated like 64 bytes: the conversion drops bits that depend on the size' % max(tw[0], 32))
+            for lp in walk(f['body']):
+                if lp['k'] not in ('For', 'While', 'Do') or not astq.is_node(lp.get('c')):
+                    continue
+                c = strip_all(lp['c'])
+                if c['k'] != 'Bin' or c['op'] not in ('<', '<=', '>', '>=', '!='):
+                    continue
+                for a_, b_ in ((c['l'], c['r']), (c['r'], c['l'])):
+                    cw = None
+                    y = a_
+                    while astq.is_node(y) and y['k'] == 'Cast':
+                        if y.get('ck') == 'IntegralCast':
+                            t1, f1 = type_info(y.get('ty')), type_info(y.get('from'))
+                            if t1 and f1 and f1[0] < t1[0]:
+                                cw = f1[0]
+                        y = y['e']
+                    if cw is None or not (astq.is_node(y) and y['k'] == 'Ref' and None in writes.get(y.get('id'), []) or (astq.is_node(y) and y['k'] == 'Ref' and len(writes.get(y.get('id'), [])) > 1)):
+                        continue
+                    if not tainted(b_):
+                        continue
+                    nconv += 1
+                    sub = kb_of(b_)
+                    high = ((1 << 64) - 1) & ~((1 << cw) - 1)
+                    ok = sub is not None and (sub.zeros & high & ((1 << sub.w) - 1)) == (high & ((1 << sub.w) - 1))
+                    R.check(ok, '%s<%s>: %d-bit counter %s compared with %s' % (fname, soft, cw, show(y), show(b_)[:40]), loc(lp, f), expected='the bound fits the counter',
+                            found='fits' if ok else 'the bound can exceed 2^%d, which the counter never reaches' % cw)
+            R.ok('%s<%s>: size-derived conversions examined' % (fname, soft), where, detail='%d narrowing conversion(s) / narrow counters depend on the size' % nconv)
